@@ -204,6 +204,15 @@ Definition p_copy (src dst : path) (t : tree) : pres :=
                 end
     else (false, t)
   end.
+(* fs::canonicalize: fails unless the path resolves; two paths are the same file when both resolve
+   to the same entry *)
+Definition p_canonicalize (p : path) (t : tree) : option (list (list N)) :=
+  match stat p t with Some _ => Some (pk p) | None => None end.
+Definition p_same_file (a b : path) (t : tree) : bool :=
+  match p_canonicalize a t, p_canonicalize b t with
+  | Some ka, Some kb => bool_decide (ka = kb)
+  | _, _ => false
+  end.
 (* unlink / rmdir / remove_dir_all *)
 Definition p_remove_file (p : path) (t : tree) : pres :=
   match stat p t with Some (File _) => (true, delete (pk p) t) | _ => (false, t) end.
@@ -282,8 +291,10 @@ Definition M_mkdir (p : path) (t : tree) : out * tree :=
 Definition M_cp (src dst : path) (t : tree) : out * tree :=
   if negb (p_exists src t) then (OErr, t)
   else if p_is_file src t then
-    let '(ok, t1) := f_create_parent dst t in
-    if ok then let '(ok2, t2) := p_copy src dst t1 in (oerr ok2, t2) else (OErr, t1)
+    if p_same_file src dst t then (OErr, t)            (* "Source and target are the same file." *)
+    else
+      let '(ok, t1) := f_create_parent dst t in
+      if ok then let '(ok2, t2) := p_copy src dst t1 in (oerr ok2, t2) else (OErr, t1)
   else
     let '(ok, t1) := f_dir_create (pk dst) t in
     if ok then let '(ok2, t2) := x_dir_copy src dst t1 in (oerr ok2, t2) else (OErr, t1).
@@ -440,10 +451,14 @@ Definition S_touch (p : path) (t : tree) : out * tree :=
   end.
 Definition S_mkdir (p : path) (t : tree) : out * tree :=
   match mkdirs (pk p) t with Some t' => (OVal s_true, t') | None => (OErr, t) end.
-(* copy a FILE: the source stays, the target becomes an equal file, parents are created *)
+(* copy a FILE: the source stays, the target becomes an equal file, parents are created; copying a
+   file onto itself is a failing operation *)
+Definition same_entry (src dst : path) : bool := negb (ptr dst) && bool_decide (pk src = pk dst).
 Definition S_cp (src dst : path) (t : tree) : out * tree :=
   match stat src t with
-  | Some (File b) => match put_file dst b t with Some t' => (OVal s_true, t') | None => (OErr, t) end
+  | Some (File b) =>
+    if same_entry src dst then (OErr, t)
+    else match put_file dst b t with Some t' => (OVal s_true, t') | None => (OErr, t) end
   | _ => (OErr, t)                                  (* missing; a directory source is off-domain *)
   end.
 (* delete exactly the named path; a non-empty directory only recursively; a missing path is not
@@ -478,12 +493,14 @@ Definition mv_target (src dst : path) (t : tree) : path :=
   if p_is_dir dst t || ends_sep dst
   then match last (pk src) with Some name => pjoin dst name | None => dst end
   else dst.
+(* "copy" here is the plain placement of an equal file at the target (mv of a file onto itself is
+   therefore still copy-then-delete, as in the code; only cp refuses source = target) *)
 Definition S_mv (src dst : path) (t : tree) : out * tree :=
   match stat src t with
-  | Some (File _) =>
-    match S_cp src (mv_target src dst t) t with
-    | (OVal _, t1) => let '(ok, t2) := S_rm_one false src t1 in (oerr ok, t2)
-    | _ => (OErr, t)
+  | Some (File c) =>
+    match put_file (mv_target src dst t) c t with
+    | Some t1 => let '(ok, t2) := S_rm_one false src t1 in (oerr ok, t2)
+    | None => (OErr, t)
     end
   | _ => (OErr, t)
   end.
@@ -593,7 +610,7 @@ Definition dom_step (o : op) (t : tree) : bool :=
 (* ---- classes of known findings: where the real commands (M) leave the tree specification ----- *)
 (* 1 = F15   mv FILE to a missing name without extension and without trailing separator: the name
              is taken for a directory, created, and the file lands inside it
-   2         cp FILE onto itself empties it (the target is truncated before the source is read)
+   (2        cp FILE onto itself emptied it — repaired in /repo: now an error that changes nothing)
    3         write / append / touch / cp to a name written with a trailing separator fails, but the
              missing parent directories it created stay
    4         mv FILE into a directory that already has a file of that name is refused, although
@@ -613,8 +630,7 @@ Definition known_step (o : op) (t : tree) : N :=
   | Cp a b =>
     match stat a t with
     | Some (File c) =>
-      if negb (ptr b) && bool_decide (pk a = pk b) && match c with [] => false | _ => true end then 2%N
-      else if trailing_partial b t then 3%N else 0%N
+      if same_entry a b then 0%N else if trailing_partial b t then 3%N else 0%N
     | _ => 0%N
     end
   | Write p _ | Append p _ | WriteB p _ => if trailing_partial p t then 3%N else 0%N
@@ -635,7 +651,6 @@ Fixpoint known_at (P : N -> Prop) (ops : list op) (t : tree) : Prop :=
   end.
 Definition Known : list op -> tree -> Prop := known_at (fun c => c <> 0%N).
 Definition KnownF15 : list op -> tree -> Prop := known_at (eq 1%N).
-Definition KnownCpSelf : list op -> tree -> Prop := known_at (eq 2%N).
 Definition KnownPartialParents : list op -> tree -> Prop := known_at (eq 3%N).
 Definition KnownMvNoClobber : list op -> tree -> Prop := known_at (eq 4%N).
 
